@@ -323,6 +323,9 @@ def run(ctx):
                 r = p.env.local(0)
                 if any(isinstance(t, tuple) and t[0] == "idx" and is_const(t[2]) and t[2][1] == 0 for t in walk(r)) or any(isinstance(t, tuple) and t[0] == "call" and t[1].endswith("::index") and any(is_const(x) and x[1] == 0 for x in walk(t[2])) for t in walk(r)):
                     fallback = True
+                # equivalent spellings of element 0: repositories.first() / .get(0)
+                if any(isinstance(t, tuple) and t[0] == "call" and (t[1].endswith("::first") or (t[1].endswith("::get") and any(is_const(x) and x[1] == 0 for x in walk(t[2])))) and any(isinstance(x, tuple) and x[0] == "fld" and x[2] == "repositories" for x in walk(t[2])) for t in walk(r)):
+                    fallback = True
         ctx.ob("REPO", "category-is-first-component", cat_ok, "the category is looked up from the first path component", pb.file, pb.line)
         ctx.ob("REPO", "base-fallback", fallback, "paths without a repository component fall back to repositories[0] (the base game after sorting)", pb.file, pb.line)
 
